@@ -81,6 +81,17 @@ def fn_id_of(fn):
     pass
   return -1
 
+
+def fn_code(fn):
+  """fn_id_of, but callables outside the pool get a stable negative code of their own (module + name),
+  so that two foreign callables are still told apart."""
+  k = fn_id_of(fn)
+  if k != -1:
+    return k
+  import zlib  # pylint: disable=g-import-not-at-top
+  name = f"{getattr(fn, '__module__', '?')}.{getattr(fn, '__qualname__', repr(fn))}"
+  return -(1000 + zlib.crc32(name.encode()) % 100000)
+
 NT2 = collections.namedtuple('NT2', ['n0', 'n1'])
 
 
@@ -228,7 +239,7 @@ class Projector:
       node['k'] = ('partial' if isinstance(x, fdl.Partial) else
                    'argfactory' if isinstance(x, fdl.ArgFactory) else
                    'tagged' if isinstance(x, config_lib.TaggedValueCls) else 'config')
-      node['fn'] = 0 if node['k'] == 'tagged' else fn_id_of(x.__fn_or_cls__)
+      node['fn'] = 0 if node['k'] == 'tagged' else fn_code(x.__fn_or_cls__)
       args = dict(fdl.ordered_arguments(x))
       for n, ts in x.__argument_tags__.items():
         if ts and n not in args:
